@@ -32,13 +32,14 @@ LEVEL_TEXT = (
     'if they leave the stored bytes in one consistent form (decision table, '
     'exhaustive over 5x5 transformations x equal/different parameters); the '
     'buffer is overwritten from precomputed data and never re-read.'
+    ' Sharing simulation: for every assignment of requests to the sharers of a buffer (four layouts) the check rejects exactly the conflicting ones, in any order.'
 )
 LEVEL_NOTE = (
     'Trusted: sa engines, the semantics of the five QuantTransformation '
     'members as documented in qtyping.py. Not decided: byte-level agreement on '
     'concrete models.'
 )
-TECHNIQUE = 'CFG must-call / per-iteration path rules + decision tables (static)'
+TECHNIQUE = 'CFG must-call / per-iteration path rules + decision tables + sharing simulation over all request assignments (abstract interpretation) (static)'
 
 PG = 'params_generator:ParamsGenerator'
 FBU = 'utils.tfl_flatbuffer_utils'
